@@ -151,14 +151,10 @@ Definition rh_expected (ok : bool) (args : bytes) (b : resp_body) : rh_state :=
   | RBody bs => {| rh_status := st; rh_args := Some args; rh_parts := [bs]; rh_body_started := true;
                    rh_stream_status := None; rh_error_args := None |}
   | RStream cs err => {| rh_status := st; rh_args := Some args; rh_parts := cs;
-                         rh_body_started := match cs with [] => false | _ => true end;
+                         rh_body_started := match cs, err with [], None => false | _, _ => true end;
                          rh_stream_status := match err with Some _ => Some 69 | None => None end;
                          rh_error_args := err |}
   end.
-
-(* the guard: an error can only be reported after at least one body chunk *)
-Definition rh_guard (b : resp_body) : bool :=
-  match b with RStream [] (Some _) => false | _ => true end.
 
 Definition response_events (h : bytes) (ok : bool) (args : bytes) (b : resp_body) : list p3_event :=
   EvHeaders h :: EvByte (if ok then 83 else 69) :: EvStruct args ::
@@ -177,21 +173,21 @@ Proof.
   rewrite map_app, map_map, <- app_assoc. f_equal. destruct err; reflexivity.
 Qed.
 
-Theorem response_parts_roundtrip_guarded h ok args b : rh_guard b = true ->
+(* status / args / body or chunks / stream error are rebuilt for every response,
+   including a stream that fails before its first chunk *)
+Theorem response_parts_roundtrip h ok args b :
   rh_run rh_init (p3_events_of h (response_parts ok args b)) = Some (rh_expected ok args b).
 Proof.
-  intros G. rewrite response_events_eq. unfold response_events. cbn [rh_run rh_event].
+  rewrite response_events_eq. unfold response_events. cbn [rh_run rh_event].
   assert (E : negb (((if ok then 83 else 69) =? 69) || ((if ok then 83 else 69) =? 83)) = false)
     by (destruct ok; reflexivity).
-  rewrite E. cbn [rh_init rh_body_started rh_status rh_args negb rh_parts rh_stream_status rh_error_args].
+  rewrite E. cbn [rh_init rh_body_started rh_status rh_args negb orb andb rh_parts rh_stream_status rh_error_args].
   destruct b as [|bs|cs err]; cbn [rh_run rh_event rh_body_started rh_expected negb]; try reflexivity.
   rewrite rh_run_bytes.
   cbn [rh_parts rh_body_started rh_set_parts rh_status rh_args rh_stream_status rh_error_args app].
-  destruct err as [e|]; cbn [rh_run rh_event].
-  - destruct cs as [|c cs]; [discriminate G|]. reflexivity.
-  - destruct cs; reflexivity.
+  destruct err as [e|]; cbn [rh_run rh_event]; destruct cs; reflexivity.
 Qed.
 
-Theorem response_stream_error_first_refuted :
-  exists h args e, rh_run rh_init (p3_events_of h (response_parts true args (RStream [] (Some e)))) = None.
-Proof. exists [], [], []. reflexivity. Qed.
+(* the two status bytes are not interchangeable: before the arguments a second one is still rejected *)
+Example response_two_status_bytes_rejected : rh_run rh_init [EvByte 83; EvByte 69] = None.
+Proof. reflexivity. Qed.
